@@ -511,7 +511,7 @@ func init() {
 	fw.Register(&fw.Prop{
 		ID:    "C07",
 		Level: "exploration",
-		Rule: "cases = base texts (ascii, utf-8, latin-1, json, csv, html, xml, shebang, …, empty, 1-2 bytes, >limit) with each of the 256 byte values replaced/inserted at every position (all positions for bases <= 64 bytes) x limits placing the byte inside / last-inside / just outside the examined header; the 5 BOMs, their proper prefixes and one-bit near misses followed by binary bytes; every seed of the corpus alone, truncated, BOM-prefixed, sanitised and re-injected; long clean texts whose first binary byte sits at offsets 4 KiB … 2 MiB; random strings. " +
+		Rule: "cases = base texts (ascii, utf-8, latin-1, json, csv, html, xml, shebang, …, empty, 1-2 bytes, >limit) with each of the 256 byte values replaced/inserted at every position (all positions for bases <= 64 bytes) x limits placing the byte inside / last-inside / just outside the examined header; the 5 BOMs, their proper prefixes and one-bit near misses followed by binary bytes; every seed of the corpus alone, truncated, BOM-prefixed, sanitised and re-injected; long clean texts whose first binary byte sits at offsets 4 KiB … 2 MiB; random strings.  144 texts are sent through DetectFile on a named pipe whose writer delivers a clean first piece (1 / 64 / 512 / 1000 bytes), pauses 20 ms and then delivers the piece holding the binary byte (0 / 1 / 700 bytes behind the cut), with limits on both sides of that byte." +
 			"A case is non-trivial when its examined header holds a byte outside printable ASCII (so the byte-class predicate has something to decide); distinct = distinct (family, base kind, byte value, position class, limit relation) tuples.",
 		Assumptions: []string{
 			"oracle byte ranges and BOM table are hard-coded from the property statement, not taken from the library",
